@@ -3,6 +3,7 @@ package protocol
 import (
 	"github.com/bolkedebruin/rdpgw/cmd/rdpgw/identity"
 	"github.com/bolkedebruin/rdpgw/cmd/rdpgw/transport"
+	"github.com/google/uuid"
 	"net"
 	"sync"
 	"time"
@@ -33,6 +34,9 @@ type Tunnel struct {
 	// writeMu serializes writes to transportOut: the packet processor and the goroutine
 	// forwarding data from the remote desktop server both write to the client
 	writeMu sync.Mutex
+
+	// inMu guards transportIn and Id while the RDG_IN_DATA channel is attached
+	inMu sync.Mutex
 
 	// pending holds bytes read from transportIn that belong to packets not processed yet
 	pending []byte
@@ -82,4 +86,23 @@ func (t *Tunnel) Read() (pt int, size int, pkt []byte, err error) {
 	t.LastSeen = time.Now()
 
 	return pt, size, pkt, err
+}
+
+// claimIn makes in the client to server transport of the tunnel and gives the
+// tunnel its id, unless the tunnel has such a transport already
+func (t *Tunnel) claimIn(in transport.Transport) bool {
+	t.inMu.Lock()
+	defer t.inMu.Unlock()
+	if t.transportIn != nil {
+		return false
+	}
+	t.Id = uuid.New().String()
+	t.transportIn = in
+	return true
+}
+
+func (t *Tunnel) hasIn() bool {
+	t.inMu.Lock()
+	defer t.inMu.Unlock()
+	return t.transportIn != nil
 }
